@@ -134,6 +134,7 @@ pub fn gen_stack(
     allow_cc: bool,
     scale: i32,
     avoid_empty_crop: bool,
+    far_ok: bool,
 ) -> Vec<Ad> {
     let depth = src.draw(max_depth + 1);
     let mut stack: Vec<Ad> = Vec::new();
@@ -145,7 +146,9 @@ pub fn gen_stack(
         let choice = src.draw(if can_cc { 4 } else { 3 });
         let ad = match choice {
             0 => {
-                if src.draw(16) == 15 {
+                // far translations only for the adapter property itself (C03): drawables are only
+                // specified at display scale (their geometry overflows i32 around +-30000)
+                if far_ok && src.draw(16) == 15 {
                     Ad::Translated([src.sym(40000), src.sym(40000)])
                 } else {
                     Ad::Translated([src.sym(scale.min(20)), src.sym(scale.min(20))])
